@@ -8,7 +8,10 @@
    that this bracket is a plain parenthesis.  [run_cst] is the generalised
    induction over the tree, the pending stack, the were_values / arg_count
    stacks and the rest of the input.  The operator table is the generated
-   Token.precedences: [sprec_*]/[sleft_*] are computed from it. *)
+   Token.precedences: [sprec_*]/[sleft_*] are computed from it.
+   The inductions are carried out for [WFA] (WF plus array constants, which the
+   pre-pass turns into ARRAY( ARRAYROW( .. ), ARRAYROW( .. ) )); the theorems
+   for [WF] are the restriction ([WF_WFA]). *)
 From Coq Require Import ZArith List Bool Lia.
 From PV Require Import Lib.Py Model.Syntax.
 Import ListNotations.
@@ -46,10 +49,10 @@ Proof.
   - apply HE.
 Qed.
 
-Definition argok (a : cst) : Prop := if is_empty a then True else WF a.
-Lemma WF_call n args : WF (CCall n args) <-> Forall argok args /\ args <> [CEmpty].
+Definition argok (a : cst) : Prop := if is_empty a then True else WFA a.
+Lemma WF_call n args : WFA (CCall n args) <-> Forall argok args /\ args <> [CEmpty].
 Proof.
-  cbn [WF]. split; intros [H1 H2]; split; auto; clear H2.
+  cbn [WFA]. split; intros [H1 H2]; split; auto; clear H2.
   - induction args as [|a l IH]; [constructor|]. destruct H1 as [Ha Hl].
     constructor; [exact Ha|apply IH, Hl].
   - induction H1 as [|a l Ha Hl IH]; [exact I|]. split; [exact Ha|exact IH].
@@ -91,10 +94,10 @@ Proof.
     rewrite ?IHc, ?IHc1, ?IHc2, ?app_nil_r, <- ?app_assoc; auto.
 Qed.
 
-Lemma pend_props c : WF c ->
+Lemma pend_props c : WFA c ->
   Forall (fun s => is_open s = false /\ top c <= sprec s) (pend c).
 Proof.
-  induction c using cst_ind'; cbn [WF pend top]; intros W; try (constructor; fail).
+  induction c using cst_ind'; cbn [WFA pend top]; intros W; try (constructor; fail).
   - destruct W as [W1 W2]. apply Forall_app; split.
     + eapply Forall_impl; [|apply IHc; auto]. cbn. intros s [A B]. split; auto. lia.
     + repeat constructor. rewrite sprec_pre. lia.
@@ -103,7 +106,7 @@ Proof.
     + eapply Forall_impl; [|apply IHc2; auto]. cbn. intros s [A B]. split; auto. lia.
     + repeat constructor. rewrite sprec_bin. lia.
 Qed.
-Lemma pend_nonopen c : WF c -> Forall (fun s => is_open s = false) (pend c).
+Lemma pend_nonopen c : WFA c -> Forall (fun s => is_open s = false) (pend c).
 Proof. intros W. eapply Forall_impl; [|apply pend_props; auto]. cbn. tauto. Qed.
 
 (* ------------------------------------------------------------ the stack *)
@@ -222,7 +225,10 @@ Fixpoint flatA (c : cst) : list tok :=
   | CCall n args =>
       TFuncOpen n :: TParenOpen :: join_toks [TSepArg] (map flatA args) ++ [TParenClose]
   | CEmpty => [TOperand KEmpty []]
-  | CArray _ | CRow _ => []
+  | CArray rows =>
+      TArrayOpen :: TParenOpen :: join_toks [TParenClose; TSepArg] (map flatA rows)
+      ++ [TArrayClose; TParenClose]
+  | CRow items => TArrayRowOpen :: TParenOpen :: join_toks [TSepArg] (map flatA items)
   end.
 
 (* the contract of one subtree *)
@@ -258,13 +264,87 @@ Proof.
     reflexivity.
 Qed.
 
-Lemma run_cst c : WF c -> Q c.
+(* array constants: ARRAY( ARRAYROW( items ) , ARRAYROW( items ) ... ) with the
+   last row closed by the ARRAY-CLOSE token itself *)
+Lemma Q_atom k v : Q (CAtom k v).
+Proof. intros stk out wv ac rest _. reflexivity. Qed.
+
+Lemma items_Q items : Forall const_item items ->
+  Forall (fun a => Q a /\ Forall (fun s => is_open s = false) (pend a)) items.
+Proof.
+  intros F. eapply Forall_impl; [|exact F]. intros a Ha. destruct a; cbn in Ha; try contradiction.
+  split; [apply Q_atom|constructor].
+Qed.
+
+Lemma run_arrayclose rest stk out wv ac :
+  run (TArrayClose :: rest) stk out wv ac = run (TParenClose :: rest) stk out wv ac.
+Proof. reflexivity. Qed.
+
+Lemma run_close_func0 n stk out b w k a rest :
+  run (TParenClose :: rest) (SParen :: SFunc n :: stk) out (b :: w) (k :: a)
+  = run rest stk (out ++ [RFunc n (k + (if b then 1 else 0))%nat]) w a.
+Proof.
+  pose proof (run_close_func [] n stk out b w k a rest ltac:(constructor)) as H.
+  cbn [app map] in H. rewrite app_nil_r in H. exact H.
+Qed.
+
+Lemma run_args_ac n : forall args, args <> [] ->
+  Forall (fun a => Q a /\ Forall (fun s => is_open s = false) (pend a)) args ->
+  forall k stk out b w a rest,
+  run (join_toks [TSepArg] (map flatA args) ++ TArrayClose :: rest)
+      (SParen :: SFunc n :: stk) out (b :: w) (k :: a)
+  = run rest stk (out ++ concat (map post args) ++ [RFunc n (k + length args)%nat]) w a.
+Proof.
+  induction args as [|x args IH]; intros NE F k stk out b w a rest; [congruence|].
+  inversion F as [|? ? [Qx Px] F']; subst.
+  destruct args as [|y args].
+  - cbn [map join_toks concat length]. rewrite Qx by (cbn; auto).
+    cbn [set_top_true]. rewrite run_arrayclose, run_close_func by auto.
+    rewrite app_nil_r, (post_split x), <- !app_assoc. reflexivity.
+  - change (join_toks [TSepArg] (map flatA (x :: y :: args)))
+      with (flatA x ++ [TSepArg] ++ join_toks [TSepArg] (map flatA (y :: args))).
+    rewrite <- !app_assoc. rewrite Qx by (cbn; auto). cbn [set_top_true app].
+    rewrite run_sep by auto.
+    rewrite IH by (auto; congruence).
+    cbn [map concat length]. rewrite (post_split x), <- !app_assoc.
+    replace (S k + S (length args))%nat with (k + S (S (length args)))%nat by lia.
+    reflexivity.
+Qed.
+
+Lemma run_rows : forall rows, rows <> [] -> Forall const_row rows ->
+  forall k stk out b w a rest,
+  run (join_toks [TParenClose; TSepArg] (map flatA rows) ++ TArrayClose :: TParenClose :: rest)
+      (SParen :: SFunc n_array :: stk) out (b :: w) (k :: a)
+  = run rest stk (out ++ concat (map post rows) ++ [RFunc n_array (k + length rows)%nat]) w a.
+Proof.
+  induction rows as [|x rows IH]; intros NE F k stk out b w a rest; [congruence|].
+  inversion F as [|? ? Rx F']; subst.
+  destruct x as [| | | | | | |items|]; cbn [const_row] in Rx; try contradiction.
+  destruct Rx as [NEi Fi]. pose proof (items_Q items Fi) as Qi.
+  destruct rows as [|y rows].
+  - cbn [map join_toks flatA app]. cbn [run]. cbn [set_top_true].
+    rewrite (run_args_ac n_arrayrow items NEi Qi).
+    rewrite run_close_func0. cbn [map concat post length Nat.add].
+    rewrite app_nil_r, <- !app_assoc. reflexivity.
+  - change (join_toks [TParenClose; TSepArg] (map flatA (CRow items :: y :: rows)))
+      with (flatA (CRow items) ++ [TParenClose; TSepArg]
+            ++ join_toks [TParenClose; TSepArg] (map flatA (y :: rows))).
+    cbn [flatA]. rewrite <- !app_assoc. cbn [app]. cbn [run]. cbn [set_top_true].
+    rewrite (run_args n_arrayrow items NEi Qi).
+    rewrite (run_sep [] (SFunc n_array :: stk)) by constructor. cbn [map].
+    rewrite IH by (auto; congruence).
+    cbn [map concat post length Nat.add]. rewrite app_nil_r, <- !app_assoc.
+    replace (S (k + S (length rows)))%nat with (k + S (S (length rows)))%nat by lia.
+    reflexivity.
+Qed.
+
+Lemma run_cst c : WFA c -> Q c.
 Proof.
   induction c as [k v|c IH|c IH|c IH|o l r IHl IHr|n args IH|rows IH|items IH|] using cst_ind';
     intros W; try (cbn in W; contradiction); unfold Q;
     cbn [flatA pend emitted top post]; intros stk out wv ac rest K.
   - reflexivity.
-  - cbn [WF] in W. cbn [app run]. rewrite <- app_assoc.
+  - cbn [WFA] in W. cbn [app run]. rewrite <- app_assoc.
     rewrite (IH W (SParen :: stk) out wv ac ([TParenClose] ++ rest)) by (cbn; auto).
     cbn [app]. rewrite run_close_paren by (try apply pend_nonopen; eauto using ok_nofunc).
     now rewrite <- app_assoc, <- post_split.
@@ -303,9 +383,11 @@ Proof.
       destruct a; cbn [is_empty] in Wa;
         try (split; [apply IH; exact Wa|apply pend_nonopen; exact Wa]).
       split; [apply Q_empty|constructor].
+  - cbn [WFA] in W. destruct W as [NE F]. cbn [app]. rewrite <- app_assoc. cbn [app run].
+    rewrite (run_rows rows NE F). cbn [Nat.add]. reflexivity.
 Qed.
 
-Lemma sy_flatA c : WF c -> run (flatA c) [] [] [] [] = Some (post c).
+Lemma sy_flatA c : WFA c -> run (flatA c) [] [] [] [] = Some (post c).
 Proof.
   intros W. rewrite <- (app_nil_r (flatA c)). rewrite (run_cst c W) by (cbn; auto).
   cbn [run app set_top_true]. rewrite app_nil_r.
@@ -328,9 +410,9 @@ Proof.
 Qed.
 
 Definition plain_tok (t : tok) : Prop := t <> TSepArg /\ t <> TFuncClose.
-Lemma flat_head c : WF c -> exists t ts, flat c = t :: ts /\ plain_tok t.
+Lemma flat_head c : WFA c -> exists t ts, flat c = t :: ts /\ plain_tok t.
 Proof.
-  induction c using cst_ind'; cbn [WF flat]; intros W; try contradiction.
+  induction c using cst_ind'; cbn [WFA flat]; intros W; try contradiction.
   - eexists _, _; split; [reflexivity|split; discriminate].
   - eexists _, _; split; [reflexivity|split; discriminate].
   - eexists _, _; split; [reflexivity|split; discriminate].
@@ -338,6 +420,7 @@ Proof.
     eexists _, _; split; [reflexivity|exact P].
   - destruct W as (W & _). destruct (IHc1 W) as (t & ts & E & P). rewrite E.
     eexists _, _; split; [reflexivity|exact P].
+  - eexists _, _; split; [reflexivity|split; discriminate].
   - eexists _, _; split; [reflexivity|split; discriminate].
 Qed.
 
@@ -356,7 +439,7 @@ Qed.
 Definition AQ (c : cst) : Prop := forall nx, amendx (flat c) nx = flatA c.
 
 Lemma amend_args : forall args nx,
-  Forall (fun a => argok a /\ (WF a -> AQ a)) args -> args <> [] ->
+  Forall (fun a => argok a /\ (WFA a -> AQ a)) args -> args <> [] ->
   pre_empty (hd CEmpty args) ++ amendx (join_toks [TSepArg] (map flat args) ++ [TFuncClose]) nx
   = join_toks [TSepArg] (map flatA args) ++ [TParenClose].
 Proof.
@@ -395,19 +478,74 @@ Proof.
     rewrite HJ. reflexivity.
 Qed.
 
-Lemma amend_flat c : WF c -> AQ c.
+(* array constants through the pre-pass *)
+Definition rowbody (c : cst) : list tok :=
+  match c with CRow items => join_toks [TSepArg] (map flatA items) | _ => [] end.
+Definition row_sep : list tok := [TParenClose; TSepArg; TArrayRowOpen; TParenOpen].
+
+Lemma amend_items : forall items, Forall const_item items -> forall nx,
+  amendx (join_toks [TSepArg] (map flat items)) nx = join_toks [TSepArg] (map flatA items).
+Proof.
+  induction items as [|x items IH]; intros F nx; [reflexivity|].
+  inversion F as [|? ? Cx F']; subst. destruct x as [k v| | | | | | | |]; cbn in Cx; try contradiction.
+  destruct items as [|y items]; [reflexivity|].
+  change (join_toks [TSepArg] (map flat (CAtom k v :: y :: items)))
+    with (TOperand k v :: TSepArg :: join_toks [TSepArg] (map flat (y :: items))).
+  change (join_toks [TSepArg] (map flatA (CAtom k v :: y :: items)))
+    with (TOperand k v :: TSepArg :: join_toks [TSepArg] (map flatA (y :: items))).
+  cbn [amendx]. rewrite (IH F' nx). cbn [amend1 app].
+  inversion F' as [|? ? Cy F'']; subst. destruct y as [k' v'| | | | | | | |]; cbn in Cy; try contradiction.
+  destruct items; reflexivity.
+Qed.
+
+Lemma amend_rows : forall rows, rows <> [] -> Forall const_row rows -> forall nx,
+  amendx (join_toks [TSepRow] (map flat rows) ++ [TArrayClose]) nx
+  = join_toks row_sep (map rowbody rows) ++ [TArrayClose; TParenClose].
+Proof.
+  induction rows as [|x rows IH]; intros NE F nx; [congruence|].
+  inversion F as [|? ? Rx F']; subst.
+  destruct x as [| | | | | | |items|]; cbn [const_row] in Rx; try contradiction.
+  destruct Rx as [NEi Fi].
+  destruct rows as [|y rows].
+  - cbn [map join_toks flat rowbody]. rewrite amendx_app, (amend_items items Fi). reflexivity.
+  - change (join_toks [TSepRow] (map flat (CRow items :: y :: rows)))
+      with (flat (CRow items) ++ [TSepRow] ++ join_toks [TSepRow] (map flat (y :: rows))).
+    change (join_toks row_sep (map rowbody (CRow items :: y :: rows)))
+      with (rowbody (CRow items) ++ row_sep ++ join_toks row_sep (map rowbody (y :: rows))).
+    rewrite <- !app_assoc. rewrite amendx_app. cbn [flat rowbody]. rewrite (amend_items items Fi).
+    f_equal. cbn [app amendx amend1]. rewrite (IH ltac:(congruence) F' nx). reflexivity.
+Qed.
+
+Lemma rows_flatA : forall rows, rows <> [] -> Forall const_row rows ->
+  TArrayRowOpen :: TParenOpen :: join_toks row_sep (map rowbody rows)
+  = join_toks [TParenClose; TSepArg] (map flatA rows).
+Proof.
+  induction rows as [|x rows IH]; intros NE F; [congruence|].
+  inversion F as [|? ? Rx F']; subst.
+  destruct x as [| | | | | | |items|]; cbn [const_row] in Rx; try contradiction.
+  destruct rows as [|y rows]; [reflexivity|].
+  change (join_toks row_sep (map rowbody (CRow items :: y :: rows)))
+    with (rowbody (CRow items) ++ row_sep ++ join_toks row_sep (map rowbody (y :: rows))).
+  change (join_toks [TParenClose; TSepArg] (map flatA (CRow items :: y :: rows)))
+    with (flatA (CRow items) ++ [TParenClose; TSepArg]
+          ++ join_toks [TParenClose; TSepArg] (map flatA (y :: rows))).
+  rewrite <- (IH ltac:(congruence) F'). cbn [flatA rowbody row_sep app].
+  rewrite <- ?app_assoc. reflexivity.
+Qed.
+
+Lemma amend_flat c : WFA c -> AQ c.
 Proof.
   induction c as [k v|c IH|c IH|c IH|o l r IHl IHr|n args IH|rows IH|items IH|] using cst_ind';
     intros W; try (cbn in W; contradiction); intros nx; cbn [flat flatA].
   - reflexivity.
-  - cbn [WF] in W. cbn [amendx amend1 app]. rewrite amendx_app, (IH W). reflexivity.
+  - cbn [WFA] in W. cbn [amendx amend1 app]. rewrite amendx_app, (IH W). reflexivity.
   - destruct W as [W _]. cbn [amendx amend1 app]. rewrite (IH W). reflexivity.
   - destruct W as [W _]. rewrite amendx_app, (IH W). reflexivity.
   - destruct W as (Wl & Wr & _). rewrite amendx_app. cbn [amendx amend1 app].
     rewrite (IHl Wl), (IHr Wr). reflexivity.
   - apply WF_call in W. destruct W as [Wa NE].
     destruct args as [|x args]; [reflexivity|].
-    assert (F: Forall (fun a => argok a /\ (WF a -> AQ a)) (x :: args)).
+    assert (F: Forall (fun a => argok a /\ (WFA a -> AQ a)) (x :: args)).
     { rewrite Forall_forall in *. intros a Ha. split; auto. }
     pose proof (amend_args (x :: args) nx F ltac:(congruence)) as HA. cbn [hd] in HA.
     rewrite <- HA. cbn [amendx].
@@ -422,6 +560,9 @@ Proof.
         { unfold J. destruct args; cbn [map join_toks]; rewrite Fx; cbn [app]; eauto. }
         destruct E2 as [r ->]. destruct t; try reflexivity; congruence. }
     rewrite HJ. reflexivity.
+  - cbn [WFA] in W. destruct W as [NE F]. cbn [amendx amend1].
+    rewrite (amend_rows rows NE F nx). cbn [app].
+    rewrite <- (rows_flatA rows NE F). cbn [app]. reflexivity.
 Qed.
 
 (* ------------------------------------------------------------ _build_ast *)
@@ -454,16 +595,36 @@ Proof.
 Qed.
 
 (* ------------------------------------------------------------ the theorem *)
-Theorem parse_correct c : WF c -> parse (flat c) = Some (abs c).
+Lemma WF_WFA c : WF c -> WFA c.
+Proof.
+  induction c as [k v|c IH|c IH|c IH|o l r IHl IHr|n args IH|rows IH|items IH|] using cst_ind';
+    cbn [WF WFA]; intros W; try contradiction; auto.
+  - destruct W as [W T]. split; auto.
+  - destruct W as [W T]. split; auto.
+  - destruct W as (Wl & Wr & Tl & Tr). repeat split; auto.
+  - destruct W as [W1 W2]. split; [|exact W2]. clear W2.
+    induction IH as [|a l Ha Hl IHl]; [exact I|]. destruct W1 as [Wa Wl].
+    split; [destruct (is_empty a); auto|apply IHl, Wl].
+Qed.
+
+(* with array constants *)
+Theorem parse_correct_array c : WFA c -> parse (flat c) = Some (abs c).
 Proof.
   intros W. unfold parse, sy. rewrite amend_amendx, (amend_flat c W), (sy_flatA c W).
   unfold build. rewrite <- (app_nil_r (post c)), build_post. reflexivity.
 Qed.
+Theorem sy_correct_array c : WFA c -> sy (flat c) = Some (post c).
+Proof.
+  intros W. unfold sy. rewrite amend_amendx, (amend_flat c W). apply sy_flatA, W.
+Qed.
+
+Theorem parse_correct c : WF c -> parse (flat c) = Some (abs c).
+Proof. intros W. apply parse_correct_array, WF_WFA, W. Qed.
 
 (* the operator / parenthesis fragment alone, on the postfix form *)
 Theorem sy_correct c : WF c -> sy (flat c) = Some (post c).
 Proof.
-  intros W. unfold sy. rewrite amend_amendx, (amend_flat c W). apply sy_flatA, W.
+  intros W0. pose proof (WF_WFA c W0) as W. unfold sy. rewrite amend_amendx, (amend_flat c W). apply sy_flatA, W.
 Qed.
 
 (* non-vacuity: -2^2 is (-2)^2 in Excel's grammar, and 1+2*3 groups to the right *)
@@ -477,3 +638,13 @@ Example ex_call :
   = Some (EFunc [73; 70; 40] [EBin OGt (EOperand KRange [65; 49]) (EOperand KNumber [49]);
                             EOperand KEmpty []; EOperand KEmpty []]).
 Proof. reflexivity. Qed.
+
+(* {1,"a";TRUE,#N/A} *)
+Example ex_array :
+  let c := CArray [CRow [CAtom KNumber [49]; CAtom KText [34; 97; 34]];
+                   CRow [CAtom KLogical [84; 82; 85; 69]; CAtom KError [35; 78; 47; 65]]] in
+  WFA c /\ parse (flat c) = Some (abs c).
+Proof.
+  cbn zeta. split; [|reflexivity]. cbn. split; [discriminate|].
+  repeat constructor; discriminate.
+Qed.
